@@ -11,6 +11,10 @@ EXTENDS MC_Numberify, Json
 \* the shell route: the display context is the one the loader infers from the ledger text, of which only the most
 \* common numbers of digits are pinned (the shell builds its formatter with the defaults)
 DCABC == << <<"AAA", 0, 0>>, <<"BBB", 1, 1>>, <<"CCC", 2, 2>> >>
+\* the same ledger after an edit (a shell session: statement, edit of the file, .reload, statement, ...): every currency
+\* is now written with another number of digits; the formatter of a statement is the one of the ledger loaded WHEN THE
+\* STATEMENT RUNS (3/2 AAA is exact now and 3/2 BBB, 3/2 CCC have become ties)
+DCABC2 == << <<"AAA", 1, 1>>, <<"BBB", 0, 0>>, <<"CCC", 0, 0>> >>
 
 GNext == AddRow
 Emit ==
